@@ -394,7 +394,12 @@ pub fn mutants(b: &Base, uri_bytes: &[u8], reduced: bool) -> Vec<Mutant> {
 /// Judge one mutant for soundness; other disagreements are recorded as notes.
 pub fn judge_mutant(index: u64, base: &Base, m: &Mutant, st: &mut Stats) {
     st.evaluations += 1;
-    st.transitions += 1;
+    st.transitions += 2;
+    // non-initial state: the genuine request has just been accepted on this very thread
+    {
+        let mut p = ProvSpec::standard().to_provider();
+        let _ = crate::sut::validate(&base.wire, &base.cfg, &mut p);
+    }
     let case = Case { wire: m.wire.clone(), cfg: base.cfg.clone(), prov: m.prov.clone() };
     let j = e2e::judge(&case);
     if let SutResult::Unbuildable(_) = j.sut {
@@ -540,7 +545,7 @@ pub fn run(ctx: &Ctx) -> Report {
     Report {
         stats: st,
         rule: format!(
-            "{} validly signed base requests (carrier x options x token x shape, one shape carrying x-amz-content-sha256 / Content-Length / Content-MD5 as S3 clients do), each accepted by implementation and reference; for each, every single-component mutation: 13 methods; every URI position x every byte http admits ({} values) + 7 insertions + deletion per position; every header (signed, unsigned, Authorization, date, token) position x 8 bytes + insertion + deletion, header removed/added/duplicated/renamed; every bit of every body byte, truncations, appends; old signature transplanted onto requests re-signed with a changed instant (10 deltas, 5 renderings), date text, 12 scope near-misses, 5 access keys, signed-list drops/additions, token changes; provider key: all 256 single-bit flips, 5 off-by-one derivations, another secret; signature: every digit x 15 other values, upper case, every truncation, extensions, all hex strings of length <= 2{}. Oracle: the implementation may return Ok only if the reference verifier, run on the request as received with the key the provider handed out, accepts. states = distinct reference strings-to-sign (+ refusal stage); non-trivial = distinct (mutated request, provider)",
+            "{} validly signed base requests (carrier x options x token x shape, one shape carrying x-amz-content-sha256 / Content-Length / Content-MD5 as S3 clients do), each accepted by implementation and reference; for each, every single-component mutation: 13 methods; every URI position x every byte http admits ({} values) + 7 insertions + deletion per position; every header (signed, unsigned, Authorization, date, token) position x 8 bytes + insertion + deletion, header removed/added/duplicated/renamed; every bit of every body byte, truncations, appends; old signature transplanted onto requests re-signed with a changed instant (10 deltas, 5 renderings), date text, 12 scope near-misses, 5 access keys, signed-list drops/additions, token changes; provider key: all 256 single-bit flips, 5 off-by-one derivations, another secret; signature: every digit x 15 other values, upper case, every truncation, extensions, all hex strings of length <= 2{}. Each mutant is validated right after the genuine request was accepted on the same thread (so a remembered success cannot vouch for it). Oracle: the implementation may return Ok only if the reference verifier, run on the request as received with the key the provider handed out, accepts. states = distinct reference strings-to-sign (+ refusal stage); non-trivial = distinct (mutated request, provider)",
             bs.len(), uri_bytes.len(),
             if thorough { "; plus all pairs over ~600 strided mutation sites on four bases" } else { "" }
         ),
